@@ -542,8 +542,11 @@ class Worker:
         preprocess = getattr(self, 'preprocess', None)
 
         while True:
-            if buffer.full():
-                with buffer._not_full:
+            with buffer._not_full:
+                # Test under the buffer's lock: a `get` that makes room (and notifies)
+                # between an unlocked test and the `wait` would be missed, and this
+                # thread would wait for a notification that may never come again.
+                if buffer.full():
                     buffer._not_full.wait()
 
             # Multiple workers in separate processes may be competing
